@@ -13,7 +13,7 @@ from .reference import Reference, declared_edges, reachable
 from .sim import BarrierScheduler, FifoScheduler, ScriptedScheduler, make_scheduler
 
 # construct classes currently claimed (extended as defects are repaired); see DESIGN 4.2 / 7
-CLASSES_ALL = ['plain', 'rec', 'switch', 'switch_unk', 'switch_shared', 'oneof', 'oneof_nested']
+CLASSES_ALL = ['plain', 'rec', 'rec_nested', 'switch', 'switch_unk', 'switch_shared', 'oneof', 'oneof_nested', 'mix_main']
 
 
 def h64(*parts) -> int:
@@ -415,7 +415,7 @@ class C06(Prop):
 
 class C09(Prop):
     id = 'C09'
-    classes = ['switch', 'switch_unk', 'switch_shared']
+    classes = ['switch', 'switch_unk', 'switch_shared', 'mix_main']
     rule = ('programs with named/unnamed, nested, shared switches; labels derived from the input incl. labels '
             'without a case; oracle: executed bodies subset of the reference demanded set, consumer kwargs = '
             'selected case value, unknown label => error result; non-trivial = program has a switch with >= 2 '
@@ -427,7 +427,7 @@ class C09(Prop):
 
 class C10(Prop):
     id = 'C10'
-    classes = ['oneof', 'oneof_nested']
+    classes = ['oneof', 'oneof_nested', 'mix_main']
     rule = ('programs with sibling / nested one-ofs, failures at any depth of candidate sub-pipelines, None/falsy '
             'candidates; oracle: invocation multiset vs reference (laziness, containment, winner value), candidate '
             'start order, OneOfDoesNotHaveResultError on exhaustion; non-trivial = some candidate failed before '
@@ -445,7 +445,7 @@ class C10(Prop):
 
 class C11(Prop):
     id = 'C11'
-    classes = ['rec']
+    classes = ['rec', 'rec_nested']
     rule = ('one recurrent subgraph over a plain DAG, 0..max+1 requested iterations, default on/off, retries and '
             'failures inside the path; oracle: per-iteration invocation multiset (exact path set re-executed, start '
             'node gets additional_data=data, <= max re-iterations), consumers of the destination only see the final '
